@@ -315,6 +315,17 @@ def build_cases(rng, tier):
             repr_ = list(r.pick([[], ["-Ce"], ["-Cm"], ["-C"], ["-Ca"], ["-Cem"]]))
         elif i % 4 == 3 and not any(('f' in o or 'F' in o) for o in repr_):
             extra = ["reject"]            # plain REJECT tables (yy_acclist without flags)
+        elif i % 4 == 2:
+            # element widths: the file copy of a table is written with the smallest width that holds its values; keyword sets
+            # make the number of states cross 127/128 and 255/256 (state numbers sit in yy_nxt of -Cf, yy_transition of -CF, yy_def ...)
+            nk = r.pick([12, 25, 40, 70])
+            words = set()
+            while len(words) < nk:
+                words.add(tuple(r.pick([97, 98, 99, 100, 101]) for _ in range(r.rng(3, 6))))
+            prog = {'csize': 256, 'caseins': False, 'scs': [], 'rules':
+                    [{'head': ('str', list(w)), 'bol': False, 'scs': None, 'trail': None} for w in sorted(words)] +
+                    [{'head': ('plus', ('cls', ('set', False, [('rg', 97, 122)]))), 'bol': False, 'scs': None, 'trail': None}]}
+            repr_ = list(r.pick([["-Cf"], ["-Cf"], ["-Cfe"], ["-Cfa"], ["-CF"], ["-CFe"], ["-Ce"], []]))
         cases.append({'id': "t%d" % i, 'kind': 'rt', 'prog': prog, 'seed': r.s, 'flex_opts': repr_ + ["-8"], 'extra_options': extra,
                       'inputs': rulesets.gen_inputs(prog, r.fork("in"), count=2, maxlen=80),
                       # (-CF reads yy_transition past its end on some bytes, in-code and loaded alike: that is C13's finding, not a loader defect)
